@@ -59,6 +59,11 @@ def representations(c):
     items = list({**jwk, **c["optional"]}.items())
     random.Random(c["shuffle"]).shuffle(items)
     out["jwk-shuffled-optional"] = lambda: cls.import_key(dict(items))
+    # a key class of the application with a stricter parameter policy ("use" is mandatory): what is accepted changes, the RFC 7638
+    # member list does not
+    from joserfc.registry import JWK_PARAMETER_REGISTRY, KeyParameter, in_choices
+    strict = type("Strict" + cls.__name__, (cls,), {"param_registry": {**JWK_PARAMETER_REGISTRY, "use": KeyParameter("Public Key Use", in_choices(["sig", "enc"]), required=True)}})
+    out["strict-policy-subclass"] = lambda: strict.import_key({**copy.deepcopy(jwk), "use": "enc" if c["shuffle"] % 2 else "sig"})
     if ref["kty"] != "oct":
         pub = rk.export_jwk(rk.public_of(ref), private=False)
         out["jwk-public"] = lambda: cls.import_key(copy.deepcopy(pub))
